@@ -42,7 +42,7 @@ impl Prop for C06 {
     "C06"
   }
   fn rule(&self) -> String {
-    "single-fault mutants of G1 well-typed programs: one guaranteed-ill-typed edit chosen from 19 fault kinds (wrong-typed operand / condition / argument / return expression / annotated let initialiser / unary operand, argument added / removed, wrong number of type arguments, unbound variable, unknown class / member / module, private member or class used from another module, missing or mistyped interface member, integer literal 2147483648..99999999999999999999 in any literal position, deleted match arm whose variant no other arm covers) at a tape-chosen site; the fault is guaranteed because the IR knows every expression's type and all generic calls carry explicit type arguments; oracle: the unmutated program has no diagnostics, the mutant has >=1 diagnostic located in the mutated module and compile_sources returns Err; non-trivial = every accepted host with an applied fault; distinct = hash of the mutant text; evidence tabulates fault kind x outcome".into()
+    format!("single-fault mutants of G1 well-typed programs: one guaranteed-ill-typed edit chosen from {} fault kinds (wrong-typed operand / condition / argument / return expression / annotated let initialiser / unary operand, argument added / removed, wrong number of type arguments, unbound variable, unknown class / member / module, private member or class used from another module, missing or mistyped interface member, integer literal 2147483648..99999999999999999999 in any literal position, deleted match arm whose variant no other arm covers, violated type-parameter bound, ill-typed body of a hinted lambda, private field read from another class, a value of another module's private class reached through inference and then used by method call / field read / destructuring / match, an interface that gains several members no implementing class defines) at a tape-chosen site; the fault is guaranteed because the IR knows every expression's type and all generic calls carry explicit type arguments; oracle: the unmutated program has no diagnostics, the mutant has >=1 diagnostic located in the mutated module and compile_sources returns Err; non-trivial = every accepted host with an applied fault; distinct = hash of the mutant text; evidence tabulates fault kind x outcome", fault_kinds().len())
   }
   fn assumptions(&self) -> Vec<String> {
     vec![
